@@ -52,6 +52,15 @@ THEOREMS = [
     'Nb.C15.growth_of_later_tractogram_keeps_earlier_sequences',
     'Nb.C15.growing_derived_tractogram_preserves_parent',
     'Nb.C15.growing_accumulator_preserves_donors',
+    'Nb.C15.setIdxSeq_step_iff',
+    'Nb.C15.setSeq_other_buffers_untouched',
+    'Nb.C15.setSeq_all_or_none',
+    'Nb.C15.setSeq_selected',
+    'Nb.C15.setSeq_spec_partial',
+    'Nb.C15.tcopy_is_independent_copy',
+    'Nb.C15.tadd_keeps_every_live_sequence',
+    'Nb.C15.add_result_fresh',
+    'Nb.C15.write_through_fresh_sequence_keeps_others',
 ]
 ASSUMPTIONS = [
     'hand-written Lean model of ArraySequence (Model/C15.lean): heap of row buffers (written prefix + '
@@ -68,15 +77,20 @@ ASSUMPTIONS = [
     'a row is a flat list of exact integers (trailing dims raveled); dtypes are tags with an item size; '
     'NumPy casts/arithmetic on the integer-valued data used are exact (values kept far below 2**24)',
     'cached builds (append(cache_build=True) ... finalize_append()) are atomic operations; '
-    'tuple indices (seq[:, 0:2]), ArraySequence-valued operands of setitem, save/load and direct '
-    'shrink_data() calls are outside the modelled operation list; operators with an ArraySequence '
-    'operand are generated only with element-by-element equal row counts (or refused by _check_shape); '
+    'tuple indices (seq[:, 0:2]), save/load and direct shrink_data() calls are outside the modelled operation '
+    'list; operators with an ArraySequence operand, and setitem with an ArraySequence / list-of-arrays value, '
+    'are generated only with element-by-element equal row counts (or refused by the count tests: NumPy would '
+    'broadcast or raise part-way); an integer ndarray / range index is the same model operation as the list of '
+    'its entries, a list of bools the same as a boolean ndarray; '
     'comparison results (bool data) are only read, sliced and copied afterwards; a sequence of another dtype '
     'than the history\'s is only used as the right operand of an in-place operator; non in-place operators are '
     'generated with operands of one dtype (result dtype promotion is not modelled)',
-    'Tractogram: data_per_streamline (plain ndarrays, re-allocated by np.concatenate) and Tractogram.copy() / '
-    '__add__ (deepcopy) are not modelled — the oracle-only `tractogram` stream covers them; streamlines and '
-    'per-point data of one history share one trailing shape; apply_affine is outside the operation list',
+    'Tractogram: data_per_streamline (plain ndarrays, re-allocated by np.concatenate) is not modelled — the '
+    'oracle-only `tractogram` stream covers it; Tractogram.copy() is modelled as copy.deepcopy does it (every held '
+    'ArraySequence cloned with its whole ndarray, offsets/lengths/_is_view kept, sharing inside the tractogram '
+    'kept by the memo — the semantics of deepcopy on ndarrays is trusted), T + U as copy-then-extend; streamlines '
+    'and per-point data of one history share one trailing shape; apply_affine / to_world are outside the operation '
+    'list',
     'PROVED (unbounded): Inv after every history over ALL operations (inv_run) and after every tractogram '
     'history (tinv_run); list refinement for every operation that does not write through an existing array '
     '(refines_list_partial); growing a view in any way never alters its parent; Tractogram(..), T[idx] and '
@@ -84,7 +98,15 @@ ASSUMPTIONS = [
     'sequences T holds; growing a derived tractogram or an accumulator any number of times never alters any '
     'sequence that existed before it was made; exact characterisation of int/slice setitem and of in-place '
     'arithmetic with a scalar or with an ArraySequence stored in another buffer (all-or-none), and exactly '
-    'when NumPy refuses the operation (none). PARTIAL: no single linked reference run that also carries the '
+    'when NumPy refuses the operation (none); seq[idx] = other through ANY index form: Inv, frame for every '
+    'selection and value (setSeq_spec_partial), and for a value stored in another buffer and a selection without '
+    'repeats exactly the selected arrays take the value arrays IN SELECTION ORDER (setSeq_all_or_none, '
+    'setSeq_selected); T.copy() is an independent deep copy; T + U changes no live sequence for all operands '
+    '(empty ones, U = T, failing extends) and, when T has every per-point key of U, its result shares no ndarray '
+    'with any older sequence (add_result_fresh), so writes through it reach nothing else '
+    '(write_through_fresh_sequence_keeps_others). PARTIAL: seq[idx] = other when value and target share a buffer '
+    'or the selection repeats an array has only Inv + frame; add_result_fresh does not cover a per-point key T '
+    'lacks (taken over as a VIEW of U\'s entry by PerArrayDict.extend — only possible when T has no rows); no single linked reference run that also carries the '
     'writes (refines_list_partial); in-place arithmetic whose ArraySequence operand shares the buffer '
     '(aliasing) or whose target selects an array twice has only Inv + frame (iopSeq_spec_partial); the contents '
     'a grown tractogram shows (old ++ donor, per key) and that tractograms made by the modelled operations '
@@ -92,7 +114,7 @@ ASSUMPTIONS = [
     '— all covered by correspondence + oracle',
     'Basic/PySlice is the specification of Python slicing (validated by the C06 check)',
 ]
-RULE = ('histories over live sequences: exhaustive to depth 2 (full alphabet, 7 start states) and 3 (core '
+RULE = ('histories over live sequences: exhaustive to depth 2 (full alphabet plus slice assignment of an ArraySequence and reversed list-index assignment of arrays, 7 start states) and 3 (core '
         'alphabet) plus sampled depth-3/4 paths of the full-alphabet tree (quick); exhaustive depth 3 full / '
         'depth 4 core plus sampled depth-3/5 paths (thorough); start states with empty, single-row and '
         'multi-row elements, spare capacity or none, existing views and views of views; random histories '
@@ -107,10 +129,19 @@ RULE = ('histories over live sequences: exhaustive to depth 2 (full alphabet, 7 
         'histories (model + oracle): Tractogram(seq | list | None, data_per_point from sequences or lists), '
         'T[slice], T[list], T.extend(U) incl. U = T, accumulators growing several times, '
         'T.data_per_point[k] = sequence | list, mismatched keys / row counts (ValueError, also part-way), '
+        'T[boolean mask], T.copy(), T + U with EMPTY (Tractogram(), T[:0], T[all-False mask]) and non-empty operands '
+        'in both positions and U = T, each followed by writes through the RESULT (element assignment, in-place '
+        'arithmetic, scalar fill) while every other live sequence is observed, '
         'interleaved with sequence operations on the sequences the tractograms hold and on the donors: '
-        'exhaustive depth 2 + sampled depth 3 over a 12-operation alphabet from 2 start states (thorough: '
+        'exhaustive depth 2 + sampled depth 3 over a 19-operation alphabet from 2 start states (thorough: '
         'exhaustive depth 3 + sampled depth 4), random to depth 20; Tractogram slice/extend/+/append stream '
-        'with data_per_streamline (oracle only). A history is non-trivial '
+        'with data_per_streamline (oracle only); SETITEM FORMS (systematic + random): target[IDX] = value for '
+        'IDX in {slice of any step, list of ints (identity, reversed, permutations keeping first and last in place, '
+        'repeats, negative entries), integer ndarray, range, boolean ndarray, list of bools, all-False mask} x '
+        'value in {list of arrays, number, fresh ArraySequence, permuting list-index view of a fresh sequence, view '
+        'of the SAME buffer (same positions / other positions), permuting view of a copy, one array too many} x '
+        'target in {owner, full slice view, reversed view} x element lengths {unequal, all equal, all one, 3 '
+        'arrays}; getitem by integer ndarray and range. A history is non-trivial '
         'when it has a write or growth while at least two live sequences exist; distinct by its text.')
 
 PENDING_FINDINGS = [
@@ -207,11 +238,17 @@ def width(shape):
 #  ['cat', [t..]]   ['iopf', t, code, k] `s += float(k)` (a Python float scalar)
 #  ['iops', t, v, code] `s op= seqs[v]`   ['ops', t, v, code] `s op seqs[v]` (code 3 = `<`)   ['un', t, code] -s / abs(s)
 #  (the last three: correspondence + oracle only, no theorem)
+#  ['idxa', t, [i..]] s[np.array([i..])] (integer ndarray)   ['idxr', t, a, b, c] s[range(a, b, c)]
+#  ['setv', t, IDX, v] `s[IDX] = seqs[v]` (ArraySequence value)   ['setl', t, IDX, [rows..]] `s[IDX] = [arr..]`
+#  ['setk', t, IDX, k] `s[IDX] = k` (a Python number)
+#  IDX = ['s', a, b, c] slice | ['f', [i..]] list of ints | ['a', [i..]] integer ndarray | ['r', a, b, c] range |
+#        ['m', [0/1..]] boolean ndarray | ['ml', [0/1..]] list of bools
 # rows = list of flat integer rows (one array); B = buffer bytes (0 = the default 4 Mb)
 # Tractogram operations (T, U = tractogram numbers in creation order; k = key number, real key 'k<k>'):
 #  ['tnew', s|None, [[k, f]..], aslist]  Tractogram(seqs[s], data_per_point={k: seqs[f]})  (aslist: list(seqs[.]))
 #  ['tsl', T, a, b, c]  T[a:b:c]     ['tidx', T, [i..]]  T[[i..]]
 #  ['text', T, U]  T.extend(U) / T += U       ['tset', T, k, s, aslist]  T.data_per_point[k] = seqs[s]
+#  ['tmask', T, [0/1..]]  T[np.array([True,..])]     ['tcopy', T]  T.copy()     ['tadd', T, U]  T + U
 # every sequence a tractogram holds becomes a live sequence (streamlines first, then per-point data in
 # dict order), so all the sequence operations above apply to it
 
@@ -227,8 +264,74 @@ def fmt_elems(els):
     return '~' if not els else '+'.join(fmt_elem(e) for e in els)
 
 
+def idx_positions(n, idx):
+    """positions an index form selects in a sequence of n arrays, or the error it raises"""
+    f = idx[0]
+    if f == 's':
+        if idx[3] == 0:
+            return 'ERR:ValueError'
+        return list(range(n))[slice(idx[1], idx[2], idx[3])]
+    if f in ('f', 'a', 'r'):
+        items = list(range(idx[1], idx[2], idx[3])) if f == 'r' else idx[1]
+        if any(not -n <= i < n for i in items):
+            return 'ERR:IndexError'
+        return [i % n for i in items]
+    if f in ('m', 'ml'):
+        if len(idx[1]) != n and len(idx[1]) != 0:        # NumPy accepts an empty boolean index on any length
+            return 'ERR:IndexError'
+        return [i for i in range(n) if idx[1][i]] if idx[1] else []
+    raise ValueError(idx)
+
+
+def fmt_idx(idx):
+    f = idx[0]
+    if f == 's':
+        return f'S!{_o(idx[1])}!{_o(idx[2])}!{_o(idx[3])}'
+    if f in ('f', 'a'):
+        return 'F!' + (','.join(str(int(i)) for i in idx[1]) or '-')
+    if f == 'r':
+        return 'F!' + (','.join(str(i) for i in range(idx[1], idx[2], idx[3])) or '-')
+    if f in ('m', 'ml'):
+        return 'M!' + (''.join(str(int(b)) for b in idx[1]) or '-')
+    raise ValueError(idx)
+
+
+def np_index(idx):
+    """the Python object of an index form"""
+    f = idx[0]
+    if f == 's':
+        return slice(idx[1], idx[2], idx[3])
+    if f == 'f':
+        return [int(i) for i in idx[1]]
+    if f == 'a':
+        return np.array(idx[1], dtype=np.int64 if len(idx[1]) % 2 else np.int32)
+    if f == 'r':
+        return range(idx[1], idx[2], idx[3])
+    if f == 'm':
+        return np.array(idx[1], dtype=bool)
+    if f == 'ml':
+        return [bool(b) for b in idx[1]]
+    raise ValueError(idx)
+
+
 def fmt_op(op, w):
     k = op[0]
+    if k == 'idxa':
+        return f'idx:{op[1]}:' + (','.join(str(i) for i in op[2]) or '-')
+    if k == 'idxr':
+        return f'idx:{op[1]}:' + (','.join(str(i) for i in range(op[2], op[3], op[4])) or '-')
+    if k == 'setv':
+        return f'setv:{op[1]}:{fmt_idx(op[2])}:{op[3]}'
+    if k == 'setl':
+        return f'setl:{op[1]}:{fmt_idx(op[2])}:{fmt_elems(op[3])}'
+    if k == 'setk':
+        return f'setk:{op[1]}:{fmt_idx(op[2])}:{op[3]}'
+    if k == 'tmask':
+        return f'tmask:{op[1]}:' + (''.join(str(int(b)) for b in op[2]) or '-')
+    if k == 'tcopy':
+        return f'tcopy:{op[1]}'
+    if k == 'tadd':
+        return f'tadd:{op[1]}:{op[2]}:{w}'
     if k == 'new':
         return f'new:{op[1] or DEFAULT_BYTES}'
     if k == 'app':
@@ -277,10 +380,22 @@ def fmt_op(op, w):
 
 
 GROW = ('app', 'appc', 'ext', 'extg', 'exts')
-WRITE = ('set', 'sets', 'iop', 'iops', 'iopf')
-CREATE = ('new', 'view', 'copy', 'sl', 'idx', 'mask', 'op', 'cat', 'ops', 'un')
+WRITE = ('set', 'sets', 'iop', 'iops', 'iopf', 'setv', 'setl', 'setk')
+CREATE = ('new', 'view', 'copy', 'sl', 'idx', 'mask', 'op', 'cat', 'ops', 'un', 'idxa', 'idxr')
 TWO_SEQ = ('exts', 'iops', 'ops')
-TRACT = ('tnew', 'tsl', 'tidx', 'text', 'tset')
+TRACT = ('tnew', 'tsl', 'tidx', 'text', 'tset', 'tmask', 'tcopy', 'tadd')
+
+
+def seq_refs(op):
+    """positions in `op` that hold live-sequence numbers (sequence operations only)"""
+    k = op[0]
+    if k in ('new', 'cat') or k in TRACT:
+        return []
+    if k in TWO_SEQ:
+        return [1, 2]
+    if k == 'setv':
+        return [1, 3]
+    return [1]
 
 
 def mk_hist(shape, ops, stream='random'):
@@ -289,7 +404,7 @@ def mk_hist(shape, ops, stream='random'):
     data = {'kind': 'hist', 'shape': list(shape), 'ops': ops}
     nlive, nontrivial = 0, False
     for op in ops:
-        if op[0] in CREATE or op[0] in ('tnew', 'tsl', 'tidx', 'tset'):
+        if op[0] in CREATE or op[0] in ('tnew', 'tsl', 'tidx', 'tset', 'tmask', 'tcopy', 'tadd'):
             nlive += 1 if op[0] != 'tnew' else 1 + len(op[2])
         elif nlive >= 2 and (op[0] in GROW or op[0] in WRITE or op[0] == 'text'):
             nontrivial = True
@@ -369,9 +484,16 @@ def exec_tract_op(seqs, tracts, op):
         seqs.append(t.streamlines)
         rec.adopt_new_keys(seqs)
         tracts.append(rec)
-    elif k in ('tsl', 'tidx'):
+    elif k in ('tsl', 'tidx', 'tmask', 'tcopy', 'tadd'):
         T = tracts[op[1]]
-        t = T.obj[slice(op[2], op[3], op[4])] if k == 'tsl' else T.obj[[int(i) for i in op[2]]]
+        if k == 'tcopy':
+            t = T.obj.copy()
+        elif k == 'tadd':
+            t = T.obj + tracts[op[2]].obj
+        elif k == 'tmask':
+            t = T.obj[np.array(op[2], dtype=bool)]
+        else:
+            t = T.obj[slice(op[2], op[3], op[4])] if k == 'tsl' else T.obj[[int(i) for i in op[2]]]
         rec = TractRec(t, len(seqs))
         seqs.append(t.streamlines)
         rec.adopt_new_keys(seqs)
@@ -423,6 +545,18 @@ def exec_op(seqs, op, shape, w, tracts=None):
         seqs.append(seqs[op[1]][[int(i) for i in op[2]]])
     elif k == 'mask':
         seqs.append(seqs[op[1]][np.array(op[2], dtype=bool)])
+    elif k == 'idxa':
+        seqs.append(seqs[op[1]][np.array(op[2], dtype=np.intp)])
+    elif k == 'idxr':
+        seqs.append(seqs[op[1]][range(op[2], op[3], op[4])])
+    elif k == 'setv':
+        seqs[op[1]][np_index(op[2])] = seqs[op[3]]
+    elif k == 'setl':
+        s = seqs[op[1]]
+        dt = DT_CODE.get(s._data.dtype.str, 1)
+        s[np_index(op[2])] = [to_arr(e, dt, shape) for e in op[3]]
+    elif k == 'setk':
+        seqs[op[1]][np_index(op[2])] = int(op[3])
     elif k == 'get':
         return 'get=' + str(rows_of(seqs[op[1]][op[2]], w)).replace(' ', '')
     elif k == 'set':
@@ -587,14 +721,16 @@ def ref_positions(n, op):
         if op[4] == 0:
             return 'ERR:ValueError'
         return list(range(n))[slice(op[2], op[3], op[4])]
-    if k == 'idx':
+    if k in ('idx', 'idxa'):
         if any(not -n <= i < n for i in op[2]):
             return 'ERR:IndexError'
         return [i % n for i in op[2]]
+    if k == 'idxr':
+        return idx_positions(n, ['r', op[2], op[3], op[4]])
     if k == 'mask':
-        if len(op[2]) != n:
+        if len(op[2]) != n and len(op[2]) != 0:          # NumPy accepts an empty boolean index on any length
             return 'ERR:IndexError'
-        return [i for i in range(n) if op[2][i]]
+        return [i for i in range(n) if op[2][i]] if op[2] else []
     raise ValueError(op)
 
 
@@ -634,8 +770,7 @@ def ref_step(W, op, w, dts=None):
 
     if k in TRACT:
         return ref_tract_step(W, op, w)
-    for t in ([op[1]] if k not in ('new', 'cat') else op[1] if k == 'cat' else []) + \
-             ([op[2]] if k in TWO_SEQ else []):
+    for t in (op[1] if k == 'cat' else [op[i] for i in seq_refs(op)]):
         if not 0 <= t < len(W.live):
             raise Invalid()
     written = None
@@ -666,7 +801,7 @@ def ref_step(W, op, w, dts=None):
     elif k == 'copy':
         s = W.live[target]
         W.live.append(Ref(W.new_items(s.values()), W.fresh_grp(), False, s.dt))
-    elif k in ('sl', 'idx', 'mask'):
+    elif k in ('sl', 'idx', 'mask', 'idxa', 'idxr'):
         s = W.live[target]
         pos = ref_positions(len(s.items), op)
         if isinstance(pos, str):
@@ -700,6 +835,42 @@ def ref_step(W, op, w, dts=None):
             written = {}
             for p, e in zip(pos, op[5]):          # a list: later assignments win
                 written[s.items[p][0]] = [list(r) for r in e]
+    elif k in ('setl', 'setk'):
+        s = W.live[target]
+        pos = idx_positions(len(s.items), op[2])
+        if isinstance(pos, str):
+            expect_status = pos
+        else:
+            if k == 'setl':
+                if len(pos) != len(op[3]) or any(len(s.items[p][1]) != len(e) or any(len(r) != w for r in e)
+                                                 for p, e in zip(pos, op[3])):
+                    raise Invalid()
+                vals = op[3]
+            else:
+                vals = [[[op[3]] * w for _ in s.items[p][1]] for p in pos]
+            written = {}
+            for p, e in zip(pos, vals):           # `for a, e in zip(selected, values): a[:] = e` — later ones win
+                written[s.items[p][0]] = [list(r) for r in e]
+    elif k == 'setv':
+        # `s[IDX] = other`: `for a, b in zip(selected arrays of s, other): a[:] = b`, one after the other (the
+        # arrays of `other` may BE arrays of `s`); a different number of arrays or of rows is refused
+        s, v = W.live[target], W.live[op[3]]
+        pos = idx_positions(len(s.items), op[2])
+        if isinstance(pos, str):
+            expect_status = pos
+        elif len(pos) != len(v.items) or sum(len(s.items[p][1]) for p in pos) != sum(len(a) for a in v.values()):
+            expect_status = 'ERR:ValueError'
+        elif any(len(s.items[p][1]) != len(b) for p, b in zip(pos, v.values())):
+            raise Invalid()                        # NumPy broadcasts or raises part-way
+        else:
+            rel = 'same' if v is s else W.relation(s.grp, v.grp)
+            if rel == 'maybe':
+                raise Invalid()                    # cannot tell whether target and value share arrays
+            cells = {}
+            for p, (vid, vval) in zip(pos, v.items):
+                rhs = cells[vid] if rel == 'same' and vid in cells else vval
+                cells[s.items[p][0]] = [list(r) for r in rhs]
+            written = cells
     elif k in ('iop', 'iopf'):
         s = W.live[target]
         if not s.items:
@@ -800,8 +971,30 @@ def ref_tract_step(W, op, w):
     if not 0 <= op[1] < len(W.tracts):
         raise Invalid()
     T = W.tracts[op[1]]
-    if k in ('tsl', 'tidx'):
-        sel = (['sl', 0] + op[2:5]) if k == 'tsl' else ['idx', 0, op[2]]
+    if k == 'tcopy':
+        new, dpp = ref_tcopy(W, T)
+        W.live.extend(new)
+        W.tracts.append({'sl': n, 'dpp': dpp, 'n': T['n']})
+        return 'ok', None, None, []
+    if k == 'tadd':
+        # `T + U`: a deep copy of T, extended by U; the result is a NEW object — when the extend raises
+        # nothing live has changed
+        if not 0 <= op[2] < len(W.tracts):
+            raise Invalid()
+        saved = dict(W.maybe_parent)
+        new, dpp = ref_tcopy(W, T)
+        W.live.extend(new)
+        X = {'sl': n, 'dpp': dpp, 'n': T['n']}
+        W.tracts.append(X)
+        status, grown = ref_textend(W, X, W.tracts[op[2]])
+        if status != 'ok':
+            del W.live[n:]
+            W.tracts.pop()
+            W.maybe_parent = saved
+            return status, None, None, []
+        return 'ok', None, None, []
+    if k in ('tsl', 'tidx', 'tmask'):
+        sel = (['sl', 0] + op[2:5]) if k == 'tsl' else ['idx', 0, op[2]] if k == 'tidx' else ['mask', 0, op[2]]
         new = []
         for src in [T['sl']] + list(T['dpp'].values()):
             s = W.live[src]
@@ -818,30 +1011,8 @@ def ref_tract_step(W, op, w):
     if k == 'text':
         if not 0 <= op[2] < len(W.tracts):
             raise Invalid()
-        U = W.tracts[op[2]]
-        grown = [T['sl']]
-
-        def extend(t, u):
-            src = W.live[u]
-            items = W.new_items(src.values())
-            W.live[t].items += items
-            W.grown(t, (items, None, src.dt) if items else None, len(src.items) > 0)
-
-        extend(T['sl'], U['sl'])
-        if T['dpp'] and U['dpp'] and sorted(T['dpp']) != sorted(U['dpp']):
-            return 'ERR:ValueError', None, None, grown
-        T['n'] += U['n'] if U is not T else T['n']
-        for a, f in list(U['dpp'].items()):
-            if a not in T['dpp']:
-                r = ref_seq_from(W, f, False)
-                if not ref_dpp_check(T['n'], r):
-                    return 'ERR:ValueError', None, None, grown
-                T['dpp'][a] = len(W.live)
-                W.live.append(r)
-            else:
-                extend(T['dpp'][a], f)
-                grown.append(T['dpp'][a])
-        return 'ok', None, None, grown
+        status, grown = ref_textend(W, T, W.tracts[op[2]])
+        return status, None, None, grown
     if k == 'tset':
         if not 0 <= op[3] < n:
             raise Invalid()
@@ -852,6 +1023,59 @@ def ref_tract_step(W, op, w):
         W.live.append(r)
         return 'ok', None, None, []
     raise Invalid()
+
+
+def ref_textend(W, T, U):
+    """`T.extend(U)` in list terms: list extend on the streamlines, then on every key; a key T lacks is taken
+    over as a VIEW of U's sequence (`ArraySequence(other[key])`).  Returns (status, sequences grown)."""
+    grown = [T['sl']]
+
+    def extend(t, u):
+        src = W.live[u]
+        items = W.new_items(src.values())
+        W.live[t].items += items
+        W.grown(t, (items, None, src.dt) if items else None, len(src.items) > 0)
+
+    extend(T['sl'], U['sl'])
+    if T['dpp'] and U['dpp'] and sorted(T['dpp']) != sorted(U['dpp']):
+        return 'ERR:ValueError', grown
+    T['n'] += U['n'] if U is not T else T['n']
+    for a, f in list(U['dpp'].items()):
+        if a not in T['dpp']:
+            r = ref_seq_from(W, f, False)
+            if not ref_dpp_check(T['n'], r):
+                return 'ERR:ValueError', grown
+            T['dpp'][a] = len(W.live)
+            W.live.append(r)
+        else:
+            extend(T['dpp'][a], f)
+            grown.append(T['dpp'][a])
+    return 'ok', grown
+
+
+def ref_tcopy(W, T):
+    """`copy.deepcopy(T)` in list terms: every array is copied; two sequences of T that hold the SAME array hold
+    the same copy afterwards (deepcopy keeps the sharing inside the object), nothing is shared with T."""
+    n = len(W.live)
+    members = [T['sl']] + list(T['dpp'].values())
+    idmap, gmap, new = {}, {}, []
+    for m in members:
+        r = W.live[m]
+        items = []
+        for ident, v in r.items:
+            if ident not in idmap:
+                idmap[ident] = W.nid
+                W.nid += 1
+            items.append([idmap[ident], [list(x) for x in v]])
+        if r.grp not in gmap:
+            gmap[r.grp] = W.fresh_grp()
+        new.append(Ref(items, gmap[r.grp], r.is_view, r.dt))
+    for g, g2 in gmap.items():                  # "may be the same ndarray" carries over to the copies
+        for anc in W.chain(g)[1:]:
+            if anc in gmap:
+                W.maybe_parent[g2] = gmap[anc]
+                break
+    return new, {a: n + 1 + i for i, a in enumerate(T['dpp'])}
 
 
 def oracle_hist(d, steps):
@@ -1084,9 +1308,9 @@ class Sim:
         n0 = len(L)
         self._apply(op)
         if len(L) > n0 and ((k == 'ops' and op[3] == 3) or
-                            (k in ('view', 'copy', 'sl', 'idx', 'mask') and op[1] in self.bools)):
+                            (k in ('view', 'copy', 'sl', 'idx', 'mask', 'idxa', 'idxr') and op[1] in self.bools)):
             self.bools.add(n0)
-        if len(L) > n0 and k in ('view', 'copy', 'sl', 'idx', 'mask', 'op', 'un') and op[1] in self.odd:
+        if len(L) > n0 and k in ('view', 'copy', 'sl', 'idx', 'mask', 'idxa', 'idxr', 'op', 'un') and op[1] in self.odd:
             self.odd.add(n0)
         if len(L) > n0 and k == 'cat' and op[1] and op[1][0] in self.odd:
             self.odd.add(n0)
@@ -1110,7 +1334,7 @@ class Sim:
         elif k == 'ops':
             if L[op[1]] and L[op[1]] == L[op[2]]:
                 L.append(list(L[op[1]]))
-        elif k in ('sl', 'idx', 'mask'):
+        elif k in ('sl', 'idx', 'mask', 'idxa', 'idxr'):
             pos = ref_positions(len(L[op[1]]), op)
             if not isinstance(pos, str):
                 L.append([L[op[1]][p] for p in pos])
@@ -1147,7 +1371,8 @@ def start_states(fr, dt):
 
 
 def alphabet(sim, fr, dt, level):
-    """operations offered at the current state; `level` 0 = core, 1 = full"""
+    """operations offered at the current state; `level` 0 = core, 1 = full, 2 = full + assignment of an
+    ArraySequence / of arrays through a list index"""
     L = sim.lens
     n = len(L)
     targets = list(range(n))[-3:] if n > 3 else list(range(n))
@@ -1188,6 +1413,13 @@ def alphabet(sim, fr, dt, level):
                                              [fr.rows(x) for x in L[t][::2]]])
                 ops.append(lambda t=t: ['iop', t, 1, 2])
                 ops.append(lambda t=t: ['iopf', t, 0, 2])      # a Python float: refused on integer data
+                # slice assignment from an ArraySequence (a partner of equal element lengths, else itself) and
+                # list-index assignment of arrays in reversed order
+                if level >= 2:
+                    ops.append(lambda t=t: ['setv', t, ['s', None, None, None],
+                                            ([u for u in sim.partners(t) if u != t] or [t])[-1]])
+                    ops.append(lambda t=t, m=m: ['setl', t, ['f', list(range(m - 1, -1, -1))],
+                                                 [fr.rows(x) for x in L[t][::-1]]])
                 # operators with an ArraySequence operand of matching element lengths (another live
                 # sequence when there is one, else the sequence itself) and a unary operator
                 others = [u for u in sim.partners(t) if u != t]
@@ -1227,6 +1459,36 @@ def enumerate_histories(shape, dt, depth, level, starts, out, stream, limit=None
         for op in prefix:
             sim.apply(op)
         rec(prefix, sim, fr0.v, depth)
+
+
+def perm_fix_ends(rng, m):
+    """a permutation of range(m) that keeps 0 and m-1 in place and (when m >= 4) moves the elements between"""
+    inner = list(range(1, m - 1))
+    if len(inner) >= 2:
+        while True:
+            sh = inner[:]
+            rng.shuffle(sh)
+            if sh != inner:
+                break
+        inner = sh
+    return ([0] if m else []) + inner + ([m - 1] if m > 1 else [])
+
+
+def rand_index(rng, m):
+    """a random index form for a sequence of m arrays (mostly valid)"""
+    q = rng.random()
+    if q < 0.25:
+        b = [None] + list(range(-m - 1, m + 2))
+        return ['s', rng.choice(b), rng.choice(b), rng.choice([None, None, 1, 2, -1, -2, 3])]
+    if q < 0.45:
+        return [rng.choice(['f', 'a']), perm_fix_ends(rng, m)]
+    if q < 0.7:
+        hi = m + (1 if rng.random() < 0.08 else 0)
+        return [rng.choice(['f', 'a']), [rng.randrange(-m, hi) for _ in range(rng.randrange(0, m + 2))]]
+    if q < 0.8:
+        a, c = rng.randrange(m), rng.choice([1, 2, -1])
+        return ['r', a, rng.randrange(a, m + 1) if c > 0 else rng.randrange(-1, a + 1), c]
+    return [rng.choice(['m', 'm', 'ml']), [rng.randrange(2) for _ in range(m + (1 if rng.random() < 0.06 else 0))]]
 
 
 def random_history(rng, nsteps):
@@ -1314,6 +1576,43 @@ def random_history(rng, nsteps):
             seqadds += 1
             add([kind, t, u, rng.choice(codes)])
             continue
+        if m and rng.random() < 0.09 and t not in sim.odd:
+            # assignment through any index form, of arrays / a number / another ArraySequence (fresh, an existing
+            # sequence of matching element lengths — maybe a view of the same buffer —, or a permuting view)
+            idx = rand_index(rng, m)
+            pos = idx_positions(m, idx)
+            if isinstance(pos, str):
+                add(['setk', t, idx, 5])
+                continue
+            sel = [L[t][p] for p in pos]
+            q = rng.random()
+            if q < 0.2:
+                add(['setl', t, idx, [fr.rows(x) for x in sel]])
+            elif q < 0.3:
+                add(['setk', t, idx, rng.choice([0, 7, -2])])
+            else:
+                cand = [u for u in range(n) if L[u] == sel and u not in sim.bools]
+                if q < 0.4:                                  # refused: another number of arrays / of rows
+                    bad = [u for u in range(n) if u not in sim.bools and
+                           (len(L[u]) != len(sel) or sum(L[u]) != sum(sel))]
+                    if bad:
+                        add(['setv', t, idx, rng.choice(bad)])
+                elif cand and q < 0.7:
+                    add(['setv', t, idx, rng.choice(cand)])
+                elif n < 6 and sum(sel) < 40:
+                    perm = perm_fix_ends(rng, len(sel))
+                    inv = [0] * len(sel)
+                    for j, pj in enumerate(perm):
+                        inv[pj] = j
+                    add(['new', buf()])
+                    if rng.random() < 0.5 or not sel:
+                        add(['ext', n, dt0, [fr.rows(x) for x in sel]])
+                        add(['setv', t, idx, n])
+                    else:                                    # Y[perm] has the element lengths wanted
+                        add(['ext', n, dt0, [fr.rows(sel[inv[j]]) for j in range(len(sel))]])
+                        add([rng.choice(['idx', 'idxa']), n, perm])
+                        add(['setv', t, idx, n + 1])
+            continue
         if r < 0.13:
             add(['app', t, dt(), elem()])
         elif r < 0.18:
@@ -1327,10 +1626,17 @@ def random_history(rng, nsteps):
         elif r < 0.45 and can_create:
             add(['sl', t] + rslice(m))
         elif r < 0.50 and can_create:
-            if rng.random() < 0.12:
+            q = rng.random()
+            if q < 0.12:
                 add(['idx', t, [rng.randrange(-m - 2, m + 2) for _ in range(rng.randrange(1, 4))]])
+            elif q < 0.3 and m:                       # a permutation that keeps the first and last element
+                add([rng.choice(['idx', 'idxa']), t, perm_fix_ends(rng, m)])
+            elif q < 0.4 and m:
+                a, c = rng.randrange(m), rng.choice([1, 2, -1])
+                add(['idxr', t, a, rng.randrange(a, m + 1) if c > 0 else rng.randrange(-1, a + 1), c])
             else:
-                add(['idx', t, [rng.randrange(-m, m) for _ in range(rng.randrange(0, m + 2))] if m else []])
+                add([rng.choice(['idx', 'idx', 'idxa']), t,
+                     [rng.randrange(-m, m) for _ in range(rng.randrange(0, m + 2))] if m else []])
         elif r < 0.54 and can_create:
             if rng.random() < 0.1:
                 add(['mask', t, [rng.randrange(2) for _ in range(m + 1)]])
@@ -1426,7 +1732,21 @@ def tract_alphabet(W, fr, dt):
         lambda: on_member(0, lambda m: ['iop', m, 0, 100]),
         lambda: on_member(2, lambda m: ['set', m, 0, fr.rows(ref_lens(W, m)[0])] if ref_lens(W, m) else None),
         lambda: ['tnew', T[0]['sl'], [[0, member(0)]], 0] if member(0) is not None else None,
+        # binary operations with EMPTY and non-empty operands in both positions, copies, then writes through the
+        # RESULT (the newest tractogram): every other live object must stay as it is
+        lambda: ['tadd', 0, 2],                                    # a + acc   (acc is empty at first)
+        lambda: ['tadd', 2, 0],                                    # acc + a
+        lambda: ['tadd', 0, last] if last > 2 else ['tadd', 0, 1],    # a + (newest) ; a + b
+        lambda: ['tcopy', last],
+        lambda: ['tsl', 0, None, 0, None] if last <= 3 else ['tmask', 0, [0] * len(ref_lens(W, T[0]['sl']))],  # a[:0]
+        lambda: (lambda m: ['set', m, 0, fr.rows(ref_lens(W, m)[0])] if ref_lens(W, m) else
+                 ['app', m, dt, fr.rows(1)])(T[last]['sl']),
+        lambda: on_member(last, lambda m: ['iop', m, 0, 1000] if ref_lens(W, m) else None) or
+        ['setk', T[last]['sl'], ['s', None, None, None], 9],
     ]
+
+
+N_TRACT_ALPHA = 19
 
 
 def replay_ref(ops, w):
@@ -1442,7 +1762,7 @@ def enumerate_tract_histories(shape, dt, depth, out, stream, choices=None):
     for aslist in (0, 1):
         fr0 = Fresh(w)
         prefix = tract_prefix(fr0, dt, aslist)
-        nalpha = len(tract_alphabet(replay_ref(prefix, w), fr0, dt))
+        nalpha = N_TRACT_ALPHA
         paths = choices if choices is not None else itertools.product(range(nalpha), repeat=depth)
         for path in paths:
             fr = Fresh(w, fr0.v)
@@ -1511,6 +1831,25 @@ def random_tract_history(rng, nsteps):
                 add(['tsl', T, rng.choice(b), rng.choice(b), rng.choice([None, None, 1, 2, -1, -2])])
             elif m:
                 add(['tidx', T, [rng.randrange(-m, m + (rng.random() < 0.08)) for _ in range(rng.randrange(0, m + 2))]])
+        elif r < 0.36 and room and nt and nt < 7:
+            T, U = rng.randrange(nt), rng.randrange(nt)
+            q = rng.random()
+            if q < 0.25:
+                add(['tcopy', T])
+            elif q < 0.4:
+                m = len(W.live[W.tracts[T]['sl']].items)
+                add(['tmask', T, [rng.randrange(2) if rng.random() < 0.7 else 0 for _ in range(m)]])
+            elif sum(len(x.items) for x in W.live) < 300:
+                add(['tadd', T, U])
+                if len(W.tracts) > nt and rng.random() < 0.7:      # write through the result straight away
+                    X = W.tracts[-1]
+                    t = rng.choice([X['sl']] + list(X['dpp'].values()))
+                    lens = ref_lens(W, t)
+                    if lens and rng.random() < 0.5:
+                        i = rng.randrange(len(lens))
+                        add(['set', t, i, fr.rows(lens[i])])
+                    elif lens:
+                        add(['iop', t, 0, rng.choice([1000, -7])])
         elif r < 0.55 and nt:
             T = rng.randrange(nt)
             U = rng.randrange(nt)
@@ -1571,6 +1910,77 @@ def fancy_full_cases(out):
                 out.append(mk_hist(shape, ops, 'fancy-full'))
 
 
+def setitem_form_cases(out, rng, per_combo=1):
+    """SYSTEMATIC: `target[IDX] = value` for every index form on the target side x every kind of value, on
+    sequences with unequal and with equal element lengths; the target is an owner, a full slice view of it or a
+    reversed view; the value is a list of arrays, a number, a fresh ArraySequence, a permuting list-index view of
+    a fresh sequence (first and last element kept in place), a view of the target's OWN buffer (same positions —
+    self assignment —, or other positions of equal element lengths) or a view of a copy."""
+    combos = 0
+    for li, lens in enumerate(([2, 1, 3, 2], [2, 2, 2, 2], [1, 1, 1, 1, 1], [3, 1, 2])):
+        n = len(lens)
+        forms = [['s', None, None, None], ['s', None, None, -1], ['s', 1, None, 2], ['s', None, -1, None],
+                 ['f', list(range(n))], ['f', list(range(n - 1, -1, -1))], ['f', [0, 0, 2]], ['f', [-1, 0]],
+                 ['a', [0] + list(range(n - 2, 0, -1)) + [n - 1]], ['f', [0] + list(range(n - 2, 0, -1)) + [n - 1]],
+                 ['r', 0, n, 1], ['r', n - 1, 0, -1], ['r', n - 1, -1, -1], ['m', [1, 0] * (n // 2) + [1] * (n % 2)], ['ml', [1] * n],
+                 ['m', [0] * n]]
+        if n >= 5:
+            forms.append(['f', [0, 2, 3, 1, 4]])
+            forms.append(['a', [0, 3, 1, 2, 4]])
+        for tk in range(3):
+            for fi, idx in enumerate(forms):
+                pos = idx_positions(n, idx)
+                tpos = pos if tk < 2 else [n - 1 - p for p in pos]       # positions in the parent
+                sel = [lens[p] for p in tpos]
+                m = len(sel)
+                for vk in range(8):
+                    combos += 1
+                    shape = SHAPES[(li + fi + vk) % len(SHAPES)]
+                    dt = [1, 0, 4, 2][(li + tk + vk) % 4]
+                    w = width(shape)
+                    fr = Fresh(w)
+                    ops = [['new', 0], ['ext', 0, dt, [fr.rows(x) for x in lens]]] if (fi + vk) % 2 else \
+                          [['new', 0]] + [['app', 0, dt, fr.rows(x)] for x in lens]
+                    nl = 1
+                    t = 0
+                    if tk == 1:
+                        ops.append(['sl', 0, None, None, None]); t = nl; nl += 1
+                    elif tk == 2:
+                        ops.append(['sl', 0, None, None, -1]); t = nl; nl += 1
+                    perm = [0] + list(range(m - 2, 0, -1)) + [m - 1] if m >= 2 else list(range(m))
+                    if vk == 0:
+                        ops.append(['setl', t, idx, [fr.rows(x) for x in sel]])
+                    elif vk == 1:
+                        ops.append(['setk', t, idx, 7])
+                    elif vk == 2:                                       # a fresh ArraySequence
+                        ops += [['new', 0], ['ext', nl, dt, [fr.rows(x) for x in sel]], ['setv', t, idx, nl]]
+                    elif vk == 3:                                       # a permuting view of a fresh sequence
+                        inv = [0] * m
+                        for j, pj in enumerate(perm):
+                            inv[pj] = j
+                        ops += [['new', 0], ['ext', nl, dt, [fr.rows(sel[inv[j]]) for j in range(m)]],
+                                [('idx', 'idxa')[fi % 2], nl, perm], ['setv', t, idx, nl + 1]]
+                    elif vk == 4:                                       # the same positions of the same buffer
+                        ops += [['idx', 0, tpos], ['setv', t, idx, nl]]
+                    elif vk == 5:                                       # other positions of the same buffer
+                        other = [tpos[j] for j in perm]
+                        if [lens[p] for p in other] != sel:
+                            other = tpos[::-1]
+                            if [lens[p] for p in other] != sel:
+                                continue
+                        ops += [['idxa', 0, other], ['setv', t, idx, nl]]
+                    elif vk == 6:                                       # a permuting view of a copy
+                        other = [tpos[j] for j in perm]
+                        if [lens[p] for p in other] != sel:
+                            continue
+                        ops += [['copy', 0], ['idx', nl, other], ['setv', t, idx, nl + 1]]
+                    else:                                               # refused: one array too many / too few
+                        ops += [['new', 0], ['ext', nl, dt, [fr.rows(x) for x in sel + [1]]], ['setv', t, idx, nl]]
+                    ops.append(['get', 0, -1])
+                    out.append(mk_hist(shape, ops, 'setitem-forms'))
+    return combos
+
+
 def tract_cases():
     out = []
     for n in (2, 4, 5):
@@ -1604,19 +2014,19 @@ def cases(rng, tier):
             out.append(mk_hist(shape, prefix, stream))
 
     if tier == 'quick':
-        enumerate_histories((3,), 1, 2, 1, all_starts, out, 'exh-d2-full')
+        enumerate_histories((3,), 1, 2, 2, all_starts, out, 'exh-d2-full')
         enumerate_histories((2,), 0, 3, 0, ['spare', 'small', 'view', 'viewview'], out, 'exh-d3-core')
-        sampled((), 2, 3, 1, all_starts, 'sample-d3-full', 5000)
-        sampled((2, 2), 4, 4, 1, ['view', 'viewview', 'small', 'spare'], 'sample-d4-full', 3000)
+        sampled((), 2, 3, 2, all_starts, 'sample-d3-full', 5000)
+        sampled((2, 2), 4, 4, 2, ['view', 'viewview', 'small', 'spare'], 'sample-d4-full', 3000)
     elif tier == 'thorough':
-        enumerate_histories((3,), 1, 2, 1, all_starts, out, 'exh-d2-full')
+        enumerate_histories((3,), 1, 2, 2, all_starts, out, 'exh-d2-full')
         enumerate_histories((2,), 0, 3, 0, all_starts, out, 'exh-d3-core')
         enumerate_histories((2, 2), 4, 3, 1, ['view'], out, 'exh-d3-full')
         enumerate_histories((2,), 0, 4, 0, ['view', 'small'], out, 'exh-d4-core')
-        sampled((3,), 1, 3, 1, ['ctor', 'spare', 'small', 'viewview', 'empty', 'single'], 'sample-d3-full', 60000)
-        sampled((), 2, 5, 1, ['view', 'viewview', 'small', 'spare'], 'sample-d5-full', 60000)
+        sampled((3,), 1, 3, 2, ['ctor', 'spare', 'small', 'viewview', 'empty', 'single'], 'sample-d3-full', 60000)
+        sampled((), 2, 5, 2, ['view', 'viewview', 'small', 'spare'], 'sample-d5-full', 60000)
     else:
-        enumerate_histories((3,), 1, 2, 1, all_starts, out, 'exh-d2-full')
+        enumerate_histories((3,), 1, 2, 2, all_starts, out, 'exh-d2-full')
         enumerate_histories((2,), 0, 3, 0, ['spare', 'small', 'view', 'viewview'], out, 'exh-d3-core')
     # ---- random long histories
     nrand = {'quick': 1500, 'thorough': 20000, 'search': 3000}[tier]
@@ -1627,12 +2037,13 @@ def cases(rng, tier):
     if tier == 'thorough':
         enumerate_tract_histories((3,), 4, 3, out, 'tract-exh-d3')
         enumerate_tract_histories((), 1, 4, out, 'tract-sample-d4',
-                                  [[rng.randrange(12) for _ in range(4)] for _ in range(6000)])
+                                  [[rng.randrange(N_TRACT_ALPHA) for _ in range(4)] for _ in range(6000)])
     else:
         enumerate_tract_histories((3,), 4, 2, out, 'tract-exh-d2')
         enumerate_tract_histories((), 1, 3, out, 'tract-sample-d3',
-                                  [[rng.randrange(12) for _ in range(3)] for _ in range(500)])
+                                  [[rng.randrange(N_TRACT_ALPHA) for _ in range(3)] for _ in range(500)])
     for _ in range({'quick': 700, 'thorough': 8000, 'search': 1500}[tier]):
         out.append(random_tract_history(rng, rng.choice([6, 10, 14, 20])))
     fancy_full_cases(out)
+    setitem_form_cases(out, rng)
     return out
